@@ -58,7 +58,7 @@ Definition run_asm (kind : Z) (l : list Z) : list (list Z) :=
           | None => [[99]]
           end
   | 21 => match lex_ascii (to_text l) with
-          | Some ts => match pass_loop (S max_for_passes) ts with
+          | Some ts => match pass_loop (mkCfg 2 8000 8000 80000 8000 8000 100 100) (S max_for_passes) ts with
                        | Some (Some ts') => [[81; 0]; 80 :: enc_tokens ts']
                        | Some None => [[81; 1]]
                        | None => [[99]]
